@@ -23,7 +23,7 @@ fn all_names() -> Vec<String> {
 }
 
 /// Argument menu: (source text, is-variable)
-const ARGS: [&str; 5] = ["3", "2.5", "\"s\"", "true", "v"];
+const ARGS: [&str; 7] = ["3", "2.5", "\"s\"", "true", "v", "w1", "w0"];
 
 #[derive(Clone, Copy, Debug, PartialEq)]
 enum Stage {
@@ -31,12 +31,24 @@ enum Stage {
     AfterClone,
     /// `dst.clone_from(&src)` into an existing context whose switch is the opposite
     AfterCloneFrom,
+    /// a clone is kept alive while `clear_functions` runs on the original
+    ClearFunctionsWhileCloneAlive,
+    /// the original is kept alive while `clear` runs on the clone
+    ClearCloneWhileOriginalAlive,
     AfterClearFunctions,
     AfterClear,
     ToggledTwice,
 }
-const STAGES: [Stage; 6] =
-    [Stage::AsBuilt, Stage::AfterClone, Stage::AfterClearFunctions, Stage::AfterClear, Stage::ToggledTwice, Stage::AfterCloneFrom];
+const STAGES: [Stage; 8] = [
+    Stage::AsBuilt,
+    Stage::AfterClone,
+    Stage::AfterClearFunctions,
+    Stage::AfterClear,
+    Stage::ToggledTwice,
+    Stage::AfterCloneFrom,
+    Stage::ClearFunctionsWhileCloneAlive,
+    Stage::ClearCloneWhileOriginalAlive,
+];
 
 #[derive(Clone, Debug)]
 pub struct Config {
@@ -82,6 +94,9 @@ impl Config {
         if self.kind == Kind::HashMap {
             c.builtins_disabled = self.disabled;
             c.vars.insert("v".into(), RV::Int(7));
+            // tuples the syntax cannot write: one element, no element
+            c.vars.insert("w1".into(), RV::Tuple(vec![RV::Int(7)]));
+            c.vars.insert("w0".into(), RV::Tuple(vec![]));
             c.funcs.insert("m".into(), UF::Tag(9));
             if self.user_fn {
                 let f = match self.uf_kind {
@@ -106,6 +121,8 @@ fn sources(n: &str) -> Vec<(String, bool)> {
         v.push((format!("{}({})", n, x), true));
         v.push((format!("{} {}", n, x), true));
         v.push((format!("{}({}, 2)", n, x), true));
+        v.push((format!("{}({}, 2, 3)", n, x), true));
+        v.push((format!("{}(true, {}, 2)", n, x), true));
         v.push((format!("m {} {}", n, x), true));
         v.push((format!("{} m {}", n, x), true));
     }
@@ -141,6 +158,21 @@ fn apply_stage(real: Real, model: &mut Ctx, stage: Stage) -> Result<Real, String
             dst.set_function("stale_fn".into(), evalexpr::Function::new(|v| Ok(v.clone()))).map_err(|e| format!("{:?}", e))?;
             dst.clone_from(&h);
             h = dst;
+        },
+        Stage::ClearFunctionsWhileCloneAlive => {
+            let keep = h.clone();
+            h.clear_functions();
+            model.clear_functions();
+            // the clone is alive while the original is cleared
+            drop(keep);
+        },
+        Stage::ClearCloneWhileOriginalAlive => {
+            let original = h.clone();
+            let mut c = original.clone();
+            c.clear();
+            model.clear();
+            drop(original);
+            h = c;
         },
         Stage::AfterClearFunctions => {
             h.clear_functions();
@@ -306,9 +338,9 @@ pub fn run(rep: &Report) {
     rep.set_rule(
         "complete configuration matrix: 49 builtin names + 5 non-builtin names x {HashMapContext switch off/on x user \
          function named n present/absent x variable named n present/absent x (as built, after clone, after \
-         clear_functions, after clear, switch toggled twice, after clone_from into a context with the opposite switch), user function either recording or itself failing with FunctionIdentifierNotFound, EmptyContext, EmptyContextWithBuiltinFunctions} x call \
-         forms n(x), n x, n(x, 2), m n x, n m x, n(), n (), `n; n(1)` and variable forms n, n + 1, n - 1, `n, 1` with x \
-         from {int, float, string, bool, variable}; oracle: the reference interpreter's resolution rule (context \
+         clear_functions, after clear, switch toggled twice, after clone_from into a context with the opposite switch, clear_functions / clear while another copy is alive), user function either recording or itself failing with FunctionIdentifierNotFound, EmptyContext, EmptyContextWithBuiltinFunctions} x call \
+         forms n(x), n x, n(x, 2), n(x, 2, 3), n(true, x, 2), m n x, n m x, n(), n (), `n; n(1)` and variable forms n, n + 1, n - 1, `n, 1` with x \
+         from {int, float, string, bool, variable, one-element tuple variable, empty tuple variable}; oracle: the reference interpreter's resolution rule (context \
          function first, builtin only if none and not disabled, else FunctionIdentifierNotFound(n) exactly; variables \
          in a separate namespace) with the recording functions' call log (callee and exact argument shape). \
          Non-trivial: configurations with two candidate resolutions.",
